@@ -578,7 +578,15 @@ func (op *ShellOperator) taskHandleHookRun(t task.Task) queue.TaskResult {
 			}
 		}
 		if shouldCombine {
-			combineResult := op.combineBindingContextForHook(op.TaskQueues, op.TaskQueues.GetByName(t.GetQueueName()), t, nil)
+			// Do not combine with a Synchronization that should not be executed ("executeHookOnSynchronization: false").
+			stopCombineFn := func(tsk task.Task) bool {
+				next := task_metadata.HookMetadataAccessor(tsk)
+				if next.IsSynchronization() && !next.ExecuteOnSynchronization {
+					return true
+				}
+				return false
+			}
+			combineResult := op.combineBindingContextForHook(op.TaskQueues, op.TaskQueues.GetByName(t.GetQueueName()), t, stopCombineFn)
 			if combineResult != nil {
 				hookMeta.BindingContext = combineResult.BindingContexts
 				// Extra monitor IDs can be returned if several Synchronization for Group are combined.
